@@ -5,6 +5,7 @@ Creates seeded/<prop>-<name>/ with patch.diff, the demonstration, meta.json."""
 import json, os, re, shutil, subprocess, sys, time
 mdir, prop, checks = sys.argv[1], sys.argv[2], sys.argv[3].split(",")
 notests = "--no-tests" in sys.argv
+checks_only = "--checks-only" in sys.argv   # the demo and the package tests were confirmed by an earlier evaluation (seeded/<name>/meta.json)
 name = os.path.basename(os.path.dirname(mdir.rstrip("/"))).replace(".out", "") + "-" + os.path.basename(mdir.rstrip("/"))
 readme = open(os.path.join(mdir, "README.txt")).read()
 demo = next((f for f in os.listdir(mdir) if f.startswith("demo") and (f.endswith(".go") or os.path.isdir(os.path.join(mdir, f)))), None)
@@ -25,7 +26,16 @@ def sh(c, cwd=None, timeout=1800):
     return p.returncode, p.stdout
 subprocess.run(["git", "-C", "/repo", "worktree", "add", "--detach", wt, "HEAD"], check=True, stdout=subprocess.DEVNULL, stderr=subprocess.DEVNULL)
 meta = dict(property=prop, source=mdir, ran=[])
+prev = os.path.join("/verif/seeded", name, "meta.json")
+if checks_only and os.path.exists(prev):
+    meta = json.load(open(prev))
 try:
+    if checks_only and meta.get("demo_confirmed"):
+        rc, out = sh("git apply " + os.path.join(mdir, "patch.diff"), wt)
+        if rc != 0:
+            meta["error"] = "patch does not apply: " + out[-300:]
+            raise SystemExit
+        raise StopIteration
     shutil.copy(os.path.join(mdir, demo), os.path.join(wt, dest))
     rc0, out0 = sh(cmd, wt); meta["demo_without_change_rc"] = rc0; meta["ran"].append(cmd)
     rc, out = sh("git apply " + os.path.join(mdir, "patch.diff"), wt)
@@ -50,7 +60,10 @@ try:
             res[pkg] = dict(rc=r, fails=fails)
             meta["ran"].append(c)
         meta["package_tests_with_change"] = res
-    det = {}
+except StopIteration:
+    pass
+try:
+    det = dict(meta.get("checks", {}))
     for ck in checks:
         t = time.time()
         p = subprocess.run(["./check", ck], cwd="/verif", env=dict(os.environ, VERIF_REPO=wt, VERIF_TIER="quick"), stdout=subprocess.PIPE, stderr=subprocess.STDOUT, text=True)
@@ -60,6 +73,7 @@ try:
         print(ck, det[ck], flush=True)
     meta["checks"] = det
     meta["detected_by"] = [k for k, v in det.items() if v["rc"] == 1]
+    meta["head_at_evaluation"] = subprocess.run(["git", "-C", "/repo", "rev-parse", "--short", "HEAD"], stdout=subprocess.PIPE, text=True).stdout.strip()
 finally:
     subprocess.run(["git", "-C", "/repo", "worktree", "remove", "--force", wt], stdout=subprocess.DEVNULL, stderr=subprocess.DEVNULL)
     subprocess.run("find /verif/replays -type f -newer /verif/tools_eval_mutant.py -name '*.json' -delete", shell=True)
